@@ -815,7 +815,8 @@ struct WorldT : PolicyOps {
     }
 
     void load_def(
-        int rec, int slot, int body, const std::vector<IdRef>& vp) override {
+        int rec, int slot, int body, const std::vector<IdRef>& vp,
+        bool with_next) override {
         // mirrors method::add_function's constructor
         std::memset(def_store[rec], 0, sizeof def_store[rec]);
         auto d = new (def_store[rec]) y2::detail::definition_info;
@@ -823,8 +824,9 @@ struct WorldT : PolicyOps {
             static_cast<y2::detail::method_info*>(Slots::vt[slot]->method_info());
         d->method = m;
         d->type = P::template static_type<int>();
-        d->next = Slots::vt[slot]->next_cell(body);
-        *d->next = nullptr;
+        *Slots::vt[slot]->next_cell(body) = nullptr;
+        // add_function(next_type* next = nullptr): the slot is optional
+        d->next = with_next ? Slots::vt[slot]->next_cell(body) : nullptr;
         d->pf = (void*)Slots::vt[slot]->body_pf(body);
         d->vp_begin = def_vp[rec];
         d->vp_end = fill_ids(def_vp[rec], vp);
